@@ -205,6 +205,8 @@ def run(ctx, log):
         cases.append(('stel x = float("%s"); float(string(x)) == x' % repr(x), "OK b1", "roundtrip/float"))
     srcs = [c[0] for c in cases]
     obs = runcorr.run_corr(ctx, srcs, log, budget=5000, stages=("eval",), label="builtins", shard_size=300)["eval"]
+    # print / string / float spelling as the user's command-line program shows them (built without the observation hooks)
+    progcheck.run_production(ctx, log, rng.sample(srcs, min(len(srcs), 250 if ctx.quick else 3000)), budget=5000)
     for (src, exp, label), o in zip(cases, obs):
         ctx.seen(src)
         ctx.count(label.split(":")[0])
